@@ -355,7 +355,17 @@ class Exactness:
       return K({UNK})
     # name-based class-hierarchy fallback for methods
     if isinstance(e.func, ast.Attribute):
+      # (not when the receiver is known to be an object without such a method: a record whose field holds a function)
+      try:
+        rt_ = strip_opt(self.ty.expr_type(f.module, e.func.value, self.ty.env(f), f.cls, f)) if isinstance(f, FuncInfo) else None
+      except Exception:   # pylint: disable=broad-except
+        rt_ = None
+      if isinstance(rt_, tuple) and len(rt_) > 1 and rt_[0] == "inst" and isinstance(rt_[1], ClassInfo) and self.ix.lookup_method(rt_[1], e.func.attr) is None:
+        return K({UNK})
       cands = self._by_name.get(e.func.attr, [])
+      # the name is also a field of some record class of the package (a row holding a function): the receiver may be such a row
+      if any(e.func.attr in (c_.ann or {}) or e.func.attr in (c_.field_order or ()) and e.func.attr not in c_.methods for c_ in self.ix.classes.values() if e.func.attr not in c_.methods):
+        return K({UNK})
       if 1 <= len(cands) <= 4:
         out = set()
         for c in cands:
